@@ -72,6 +72,10 @@ class syntax_error(SourceFeedback):
     def __init__(self, line, filename, code, col_offset,
                  exception, exc_info, enhance=True, **kwargs):
         report = kwargs.get('report', MAIN_REPORT)
+        if line is None:
+            # The parser gives no position at all for some errors (e.g., a
+            # NUL byte in the source); point at the start of the code.
+            line = 1
         files = report.submission.get_files_lines()
         if filename not in files:
             files[filename] = code.split("\n")
